@@ -2,6 +2,7 @@ package rules
 
 import (
 	"go/ast"
+	"go/token"
 	"go/types"
 	"sort"
 	"strings"
@@ -634,8 +635,15 @@ func c12r3(c *core.Ctx) {
 			if !ok {
 				return true
 			}
-			for _, l := range as.Lhs {
+			for li, l := range as.Lhs {
 				if fieldOf(info, l) == osField {
+					// putting back what the same function read from the field (options that are
+					// refused are rolled back) brings in no new source
+					if len(as.Rhs) == len(as.Lhs) {
+						if id, ok := ast.Unparen(as.Rhs[li]).(*ast.Ident); ok && savedFromField(info, fd, id, osField) {
+							continue
+						}
+					}
 					nw++
 					c.Check(isOpt, "vm."+declName(fd)+"|write:VirtualMachine.os", posOf(p, as),
 						"VirtualMachine.os is written only by Option constructors (a cached default would shadow a context-supplied OS on reuse and in clones)")
@@ -1010,4 +1018,33 @@ func maxInt(a, b int) int {
 		return a
 	}
 	return b
+}
+
+// savedFromField: the identifier is a local variable whose only assignment in
+// the function is its definition from the given field (prev := vm.os).
+func savedFromField(info *types.Info, fd *ast.FuncDecl, id *ast.Ident, field *types.Var) bool {
+	obj := info.Uses[id]
+	if obj == nil {
+		return false
+	}
+	defs, others := 0, 0
+	ast.Inspect(fd.Body, func(n ast.Node) bool {
+		as, ok := n.(*ast.AssignStmt)
+		if !ok {
+			return true
+		}
+		for i, l := range as.Lhs {
+			lid, ok := l.(*ast.Ident)
+			if !ok || (info.Defs[lid] != obj && info.Uses[lid] != obj) {
+				continue
+			}
+			if as.Tok == token.DEFINE && len(as.Rhs) == len(as.Lhs) && fieldOf(info, as.Rhs[i]) == field {
+				defs++
+			} else {
+				others++
+			}
+		}
+		return true
+	})
+	return defs == 1 && others == 0
 }
